@@ -13,7 +13,8 @@ first-order IR:
   MetaClass.attribute_type            the match used to find the declared type
   MetaModel.find_metaclass / find_class / define_class
                         under which key (the name as given or upper-cased) the class table is tested, read and
-                        written, which exceptions are raised, and what kind the new metaclass is created with
+                        written, which exceptions are raised, what kind the new metaclass is created with, and
+                        whether a class whose attribute names coincide (apart from letter case) is rejected
 
 Anything outside the expected shape raises (= broken tie).  Props/C10.lean proves that PyxModel/Attr.lean's
 getattr / setattr / delattr / attrType / findMetaclass / defineClass equal a generic interpretation of this IR.
@@ -219,7 +220,7 @@ def _class_table(tree):
           'MetaModel.find_class')
     g = _method(tree, 'MetaModel', 'define_class')
     b = _strip_doc(g.body)
-    if _params(g) != ['self', 'kind', 'attributes', 'doc'] or len(b) != 6 or not _is(b[:1], 'ukind = kind.upper()'):
+    if _params(g) != ['self', 'kind', 'attributes', 'doc'] or len(b) not in (6, 7) or not _is(b[:1], 'ukind = kind.upper()'):
         raise ValueError('MetaModel.define_class: unexpected shape')
     st = b[1]
     if not (isinstance(st, ast.If) and not st.orelse and isinstance(st.test, ast.Compare) and len(st.test.ops) == 1
@@ -234,14 +235,34 @@ def _class_table(tree):
             and _same_expr(mk.value.args[1], 'self')):
         raise ValueError('MetaModel.define_class: metaclass creation of unexpected shape: %s' % ast.unparse(mk))
     stored_kind = _key(mk.value.args[0], 'define_class')
-    _same(b[3:4], 'for name, ty in attributes:\n    metaclass.append_attribute(name, ty)', 'MetaModel.define_class')
+    # the attribute loop, with or without the rejection of names that coincide apart from letter case
+    if len(b) == 6:
+        _same(b[3:4], 'for name, ty in attributes:\n    metaclass.append_attribute(name, ty)', 'MetaModel.define_class')
+        collision = 'none'
+    else:
+        _same(b[3:4], 'unames = set()', 'MetaModel.define_class')
+        lp = b[4]
+        if not (isinstance(lp, ast.For) and _same_expr(lp.target, '(name, ty)') and _same_expr(lp.iter, 'attributes')
+                and not lp.orelse and len(lp.body) == 3 and isinstance(lp.body[0], ast.If) and not lp.body[0].orelse
+                and len(lp.body[0].body) == 1 and isinstance(lp.body[0].body[0], ast.Raise)
+                and isinstance(lp.body[0].body[0].exc, ast.Call)
+                and ast.unparse(lp.body[0].body[0].exc.func) == 'MetaModelException'):
+            raise ValueError('MetaModel.define_class: attribute loop of unexpected shape: %s' % ast.unparse(lp))
+        if _same_expr(lp.body[0].test, 'name.upper() in unames') and _is(lp.body[1:2], 'unames.add(name.upper())'):
+            collision = '(some .upperBoth)'
+        elif _same_expr(lp.body[0].test, 'name in unames') and _is(lp.body[1:2], 'unames.add(name)'):
+            collision = '(some .exact)'
+        else:
+            raise ValueError('MetaModel.define_class: collision test of unexpected shape: %s' % ast.unparse(lp.body[0].test))
+        _same(lp.body[2:], 'metaclass.append_attribute(name, ty)', 'MetaModel.define_class')
+        b = b[:3] + b[4:]          # continue as in the shorter shape
     st = b[4]
     if not (isinstance(st, ast.Assign) and isinstance(st.targets[0], ast.Subscript)
             and _same_expr(st.targets[0].value, 'self.metaclasses') and _same_expr(st.value, 'metaclass')):
         raise ValueError('MetaModel.define_class: class-table store of unexpected shape: %s' % ast.unparse(st))
     def_store = _key(st.targets[0].slice, 'define_class')
     _same(b[5:], 'return metaclass', 'MetaModel.define_class')
-    return find_test, find_read, def_test, stored_kind, def_store
+    return find_test, find_read, def_test, stored_kind, def_store, collision
 
 
 HEADER = '''/-
@@ -305,7 +326,7 @@ def generate(repo_dir):
     s = _setattr(tree)
     dm = _delattr(tree)
     at = _attribute_type(tree)
-    ft, fr, dt, sk, ds = _class_table(tree)
+    ft, fr, dt, sk, ds, col = _class_table(tree)
     out = [HEADER]
     out.append('def getShape : GetShape :=\n  { matchForm := %s, tested := %s, inDict := %s, notInDict := %s, noMatch := %s }\n' % g)
     out.append('def setShape : SetShape :=\n  { matchForm := %s, tested := %s, inDict := %s, notInDict := %s, noMatch := %s }\n' % s)
@@ -319,6 +340,9 @@ def generate(repo_dir):
     out.append('def defineTestKey : KeyForm := %s\n' % dt)
     out.append('def defineStoredKind : KeyForm := %s\n' % sk)
     out.append('def defineStoreKey : KeyForm := %s\n' % ds)
+    out.append('/-- define_class rejects (MetaModelException, nothing is defined) a class with two attribute names that match in')
+    out.append('    this way; `none` = no such check -/')
+    out.append('def defineAttrCollision : Option MatchForm := %s\n' % col)
     out.append('end Pyx.Gen.AttrShape\n')
     return [('AttrShape.lean', '\n'.join(out))]
 
